@@ -54,7 +54,7 @@ static void run_one(int idx, FILE *out, void *vctx) {
             env_enable(true);
             update_run(&cfg, tfd, res);
             env_enable(false);
-            _exit(env_plan_mismatch ? 78 : 0);
+            VF_EXIT(env_plan_mismatch ? 78 : 0);
         }
         int st = 0;
         while(waitpid(pid, &st, 0) < 0 && errno == EINTR) {}
